@@ -36,6 +36,7 @@ ASSUMPTIONS = [
 ]
 
 SAN = ['-fsanitize=address,undefined', '-fno-sanitize-recover=all', '-fno-omit-frame-pointer']
+SAN_BUILD = SAN + ['-O0', '-g1']      # -O0: the sanitizer builds compile 2-3x faster and nothing is optimised away; -g1: line tables for the reports
 SUFFIX = '_c11san'
 H_TIMEDTASK = 11
 KEY_DTOR = 'C26-dtor-func-uaf'
@@ -243,12 +244,12 @@ def gen_timedtask(ctx, exe, n):
 # id = harness id of the san_record; owner flags = what the owning check passes to build_harness (kept, then SAN appended);
 # leaks: LSan at exit (only harnesses that return from main normally); n = (quick, thorough) cases; quick: built in the quick tier
 HARNESSES = [
-    {'id': 2, 'name': 'h_smallvec', 'lib': False, 'flags': ['-O0', '-g1'], 'leaks': True, 'gen': gen_smallvec, 'n': (240, 1500), 'quick': True, 'owner': 'C38'},
+    {'id': 2, 'name': 'h_smallvec', 'lib': False, 'flags': [], 'leaks': True, 'gen': gen_smallvec, 'n': (240, 1500), 'quick': True, 'owner': 'C38'},
     {'id': 5, 'name': 'h_arena', 'lib': False, 'flags': [], 'leaks': True, 'gen': gen_arena, 'n': (200, 1500), 'quick': True, 'owner': 'C37'},
     {'id': 1, 'name': 'h_cvec', 'lib': False, 'flags': ['-Wl,--wrap=free', '-Wl,--wrap=malloc'], 'leaks': True, 'gen': gen_cvec, 'n': (140, 1200), 'quick': True, 'owner': 'C32'},
     {'id': 3, 'name': 'h_opresult', 'lib': False, 'flags': ['-std=c++17'], 'leaks': True, 'gen': gen_opresult, 'n': (300, 2000), 'quick': True, 'owner': 'C40'},
-    {'id': 4, 'name': 'h_oncefn', 'lib': True, 'flags': ['-O0', '-g1', '-Wl,--wrap=malloc', '-Wl,--wrap=free'], 'leaks': True, 'gen': gen_oncefn, 'n': (520, 2000), 'quick': True, 'owner': 'C39'},
-    {'id': 11, 'name': 'h_timedtask', 'lib': True, 'flags': [], 'leaks': False, 'gen': gen_timedtask, 'n': (200, 1500), 'quick': True, 'owner': 'C26'},
+    {'id': 4, 'name': 'h_oncefn', 'lib': True, 'flags': ['-Wl,--wrap=malloc', '-Wl,--wrap=free'], 'leaks': True, 'gen': gen_oncefn, 'n': (520, 2000), 'quick': True, 'owner': 'C39'},
+    {'id': 11, 'name': 'h_timedtask', 'lib': True, 'flags': [], 'leaks': False, 'gen': gen_timedtask, 'n': (120, 1500), 'quick': True, 'owner': 'C26'},
     {'id': 6, 'name': 'h_poolalloc', 'lib': True, 'flags': [], 'leaks': True, 'gen': gen_poolalloc, 'n': (300, 2000), 'quick': False, 'owner': 'C42'},
     {'id': 7, 'name': 'h_spsc', 'lib': False, 'flags': [], 'leaks': False, 'gen': gen_spsc, 'n': (120, 1000), 'quick': False, 'owner': 'C35'},
     {'id': 8, 'name': 'h_mpmc', 'lib': False, 'flags': [], 'leaks': False, 'gen': gen_mpmc, 'n': (120, 1000), 'quick': False, 'owner': 'C34'},
@@ -260,7 +261,7 @@ HARNESSES = [
 def build_one(h):
     t0 = time.time()
     try:
-        exe = dv.build_harness(h['name'] + SUFFIX, [h['name'] + '.cpp'], need_lib=h['lib'], extra_flags=list(h['flags']) + SAN, lib_flags=SAN, timeout=900)
+        exe = dv.build_harness(h['name'] + SUFFIX, [h['name'] + '.cpp'], need_lib=h['lib'], extra_flags=list(h['flags']) + SAN_BUILD, lib_flags=SAN_BUILD, timeout=900)
         return h['name'], exe, None, round(time.time() - t0, 1)
     except Exception as e:          # RuntimeError from dv (compile error) or anything else: reported as a broken correspondence
         return h['name'], None, str(e)[-600:], round(time.time() - t0, 1)
@@ -329,3 +330,165 @@ def run_sanitized(h, exe, lines, quick):
         if not hit:     # schedule / timing dependent: did not reproduce case by case
             records[idxs[0]] = (kind, summary, out[-3000:], list(idxs))
     return records, problems
+
+
+# ------------------------------------------------------------------------------------------------ C26's domains for TimedTask reports
+def c26_masks(ctx, cases):
+    """C26's own judge (Coq judge_tt, on the trace of the UNINSTRUMENTED build of the same case) -> known-domain mask per case:
+    bit 1 (value 2) = closure access after ~TimedTask returned, bit 2 (value 4) = start after a false return, 1 = start after cancel"""
+    C26 = importlib.import_module('C26')
+    exe = dv.build_harness('h_timedtask', ['h_timedtask.cpp'])
+    outs = ls_common.run_cases(exe, [C26.line_of(c) for c in cases], jobs=min(8, max(1, len(cases))))
+    terms, slots = [], []
+    for i, (c, o) in enumerate(zip(cases, outs)):
+        p = C26.parse(o)
+        if p is None or 'error' in p:
+            continue
+        terms.append(C26.term_of(c, p))
+        slots.append(i)
+    masks = [0] * len(cases)
+    verdicts = ls_common.judge_parallel(ctx, C26.IMPORTS, 'judge_tt', terms, shard_size=60) if terms else []
+    if verdicts is None:
+        ctx.broken.append('C26 judge_tt no longer evaluates: TimedTask reports cannot be classified (all treated as outside the known domains)')
+        return masks
+    for i, v in zip(slots, verdicts):
+        base = v % 100
+        masks[i] = base - 8 if base >= 8 else 0
+    return masks
+
+
+def coq_strings(ctx, name):
+    rc, out = dv.coq_eval(ctx.work, 'names_' + name, 'From DV Require Import Props.Properties_C11.\nEval vm_compute in %s.\n' % name, 300)
+    return re.findall(r'"((?:[^"]|"")*)"', out) if rc == 0 else None
+
+
+def judge_records(ctx, recs):
+    """distinct (harness id, kind, mask) records -> {record: verdict} by Model/C11Check.judge_san evaluated inside Coq"""
+    recs = sorted(set(recs))
+    body = ('From Coq Require Import ZArith List.\nImport ListNotations.\nFrom DV Require Import Model.C11Check.\nLocal Open Scope Z_scope.\n'
+            'Eval vm_compute in (map judge_san %s).\n' % dv.coq_list(['(%d, %d, %d)' % r for r in recs]))
+    rc, out = dv.coq_eval(ctx.work, 'judge_san', body, 300)
+    vals = dv.eval_results(out) if rc == 0 else []
+    if not vals:
+        ctx.cov.setdefault('coq_eval_errors', []).append(out[-800:])
+        return None
+    return dict(zip(recs, dv.parse_zlist(vals[0])))
+
+
+def sanitizer_job(h, rng, quick, replay_line=None):
+    """build + generate + run one harness; runs in a worker thread (own PRNG derived from ctx.rng in table order)"""
+    name, exe, err, bsecs = build_one(h)
+    if exe is None:
+        return {'h': h, 'error': 'sanitizer build failed: ' + err, 'build_s': bsecs}
+    t0 = time.time()
+    shim = _Shim(rng, True)
+    if replay_line is not None:
+        lines, meta = [replay_line], {}
+    else:
+        lines, meta = h['gen'](shim, exe, h['n'][0 if quick else 1])
+    records, problems = run_sanitized(h, exe, lines, quick)
+    if problems:                           # e.g. a time-out on a loaded machine: once more before complaining
+        records, problems = run_sanitized(h, exe, lines, quick)
+    return {'h': h, 'exe': exe, 'lines': lines, 'meta': meta, 'records': records, 'problems': problems, 'build_s': bsecs, 'run_s': round(time.time() - t0, 1)}
+
+
+def run(ctx):
+    import json, random
+    quick = ctx.quick
+    hs = [h for h in HARNESSES if h['quick'] or not quick]
+    replay = None
+    if ctx.replay:
+        replay = json.load(open(ctx.replay))
+        hs = [h for h in HARNESSES if h['name'] == replay.get('harness')] or hs
+    rngs = {h['name']: random.Random(ctx.rng.getrandbits(64)) for h in HARNESSES}      # table order: independent of the tier's selection
+    pool = cf.ThreadPoolExecutor(max_workers=len(hs))
+    futs = [pool.submit(sanitizer_job, h, rngs[h['name']], quick, replay.get('case') if replay else None) for h in hs]
+
+    # ---- (1) theorems (meanwhile the sanitizer builds and runs proceed in the worker threads)
+    rep = dv.gen(['chunk', 'cvec', 'bitmath'])         # the corollaries rest on definitions regenerated from the source (C17, C32, C44)
+    if any(rep.values()):
+        ctx.broken.append('translator: ' + str(rep)[:500])
+    ctx.cov['translator_report'] = rep
+    ctx.phase('translate')
+    ctx.prove(models=['Model/C11Check.v'])
+    covered = coq_strings(ctx, 'C11_covered_mechanisms')
+    notcov = coq_strings(ctx, 'C11_not_covered')
+    ctx.cov['mechanisms_covered_by_theorems'] = covered if covered is not None else '(Properties_C11 does not load: see broken obligations)'
+    ctx.cov['not_covered_by_any_theorem'] = notcov if notcov is not None else '(Properties_C11 does not load)'
+    ctx.cov['statement_of_coverage'] = ('PARTIAL: the theorems cover exactly the mechanisms listed in mechanisms_covered_by_theorems, each under the hypotheses of its '
+                                        'component theorem.  EVERYTHING ELSE in the library is NOT covered by any theorem; the sanitizer runs below are a search for '
+                                        'failing inputs on the cases of the listed harnesses only and show nothing about inputs, schedules or components not run.')
+    ctx.phase('names')
+
+    # ---- (2) sanitizer search
+    jobs = [f.result() for f in futs]
+    pool.shutdown()
+    ctx.phase('sanitizer_runs')
+    table, flat = {}, []            # flat: (job, line index, kind, summary, tail, group)
+    for j in jobs:
+        h = j['h']
+        if 'error' in j:
+            ctx.broken.append('%s: %s' % (h['name'], j['error']))
+            table[h['name']] = {'error': j['error'][-300:]}
+            continue
+        for p in j['problems']:
+            ctx.broken.append('sanitizer run inconclusive: ' + p)
+        kinds = {}
+        for i, (kd, sm, tail, grp) in j['records'].items():
+            kinds[KIND_NAMES.get(kd, str(kd))] = kinds.get(KIND_NAMES.get(kd, str(kd)), 0) + 1
+            flat.append((j, i, kd, sm, tail, grp))
+        table[h['name']] = {'owner': h['owner'], 'cases_run': len(j['lines']), 'flags': ' '.join(SAN), 'library_instrumented': h['lib'],
+                            'leak_checked_at_exit': h['leaks'], 'cases_with_report': len(j['records']), 'reports_by_kind': kinds,
+                            'build_s': j['build_s'], 'run_s': j['run_s']}
+        table[h['name']].update({k: v for k, v in j['meta'].items() if k != 'cases'})
+        ctx.cov['evaluations'] += len(j['lines'])
+        ctx.cov['distinct_nontrivial'] += len(set(j['lines']))
+    ctx.cov['sanitizer_harnesses'] = table
+    ctx.cov['harnesses_not_run_in_this_tier'] = [h['name'] for h in HARNESSES if h not in hs]
+    ctx.cov['rule'] = ('cases = the owning checks\' generators (imported from props/C32 C38 C40 C39 C37 C42 C35 C34 fut_common pipe_common C26) incl. their regression witnesses; '
+                       'every case is run on the harness built with ' + ' '.join(SAN) + ' (library objects too); non-trivial = every case (each drives the real container / '
+                       'allocator / lifetime protocol through at least one operation); distinct = distinct case lines')
+
+    # TimedTask reports: C26's domains
+    tt = [(j, i) for j, i, kd, _, _, _ in flat if j['h']['id'] == H_TIMEDTASK and kd == 2 and 'cases' in j['meta']]
+    masks = {}
+    if tt:
+        ms = c26_masks(ctx, [j['meta']['cases'][i] for j, i in tt])
+        masks = {i: m for (_, i), m in zip(tt, ms)}
+    ctx.phase('classify')
+    recs = [(j['h']['id'], kd, masks.get(i, 0) if j['h']['id'] == H_TIMEDTASK else 0) for j, i, kd, _, _, _ in flat if kd != 99]
+    clean_recs = [(h['id'], 0, 0) for h in hs]
+    verdict = judge_records(ctx, recs + clean_recs)
+    if verdict is None:
+        ctx.broken.append('Model/C11Check.judge_san no longer evaluates')
+        verdict = {r: (0 if r[1] == 0 else 2) for r in recs + clean_recs}
+    if any(verdict[r] != 0 for r in clean_recs):
+        ctx.broken.append('judge_san does not judge a report-free case clean')
+    hist, artifacts = {'clean': ctx.cov['evaluations'] - len(flat), 'violation': 0, 'known_C26_dtor': 0, 'known_C26_false_return': 0, 'scaffolding_artifact': 0}, []
+    for j, i, kd, sm, tail, grp in flat:
+        h = j['h']
+        ln = j['lines'][i] if len(grp) == 1 else '\n'.join(j['lines'][g] for g in grp)
+        cmd = "ASAN_OPTIONS='%s' UBSAN_OPTIONS=print_stacktrace=1 %s <<< '%s'" % (san_env(h['leaks'])['ASAN_OPTIONS'], j['exe'], ln if len(grp) == 1 else '<the case lines, one per line>')
+        if kd == 99:
+            hist['scaffolding_artifact'] += 1
+            if len(artifacts) < 4:
+                artifacts.append({'harness': h['name'], 'case': ln[:200], 'report': sm[:300]})
+            continue
+        v = verdict[(h['id'], kd, masks.get(i, 0) if h['id'] == H_TIMEDTASK else 0)]
+        rep = {'harness': h['name'], 'case': ln, 'cmd': cmd, 'sanitizer_report': tail[-2500:], 'kind': KIND_NAMES.get(kd)}
+        text = '%s under ASan/UBSan%s: %s: %s -- case: %s' % (h['name'], '/LSan' if h['leaks'] else '', KIND_NAMES.get(kd), sm[:400], ln[:300])
+        if v in (4, 5):
+            hist['known_C26_dtor' if v == 4 else 'known_C26_false_return'] += 1
+            rep['finding_key'] = KEY_DTOR if v == 4 else KEY_FALSE
+            rep['c26_mask'] = masks.get(i, 0)
+            ctx.violation(text, rep)
+        elif v != 0:
+            hist['violation'] += 1
+            ctx.violation(text, rep)
+    ctx.cov['verdict_histogram'] = hist
+    ctx.cov['scaffolding_artifacts (race inside harness/vsched.h spawn/point exposed by the slower build; not judged)'] = artifacts
+    for j in jobs[:3]:
+        if 'lines' in j and j['lines']:
+            ctx.sample({'harness': j['h']['name'], 'case': j['lines'][len(j['lines']) // 2][:200], 'report': 'none' if (len(j['lines']) // 2) not in j['records'] else j['records'][len(j['lines']) // 2][1][:200]})
+    ctx.cov['traces_validated_against_impl'] = 0
+    ctx.phase('judge')
